@@ -160,6 +160,10 @@ class _RunnerIterator(iter_utils.MultiplexIterator[_ValueT]):
     return self._runner.has_agg
 
   @property
+  def data_sources(self) -> Sequence[Iterable[_ValueT]]:
+    return self._data_sources
+
+  @property
   def agg_result(self) -> tree.TreeMapView:
     return self._runner.get_result(self.agg_state or {})
 
@@ -545,7 +549,14 @@ class _ChainedRunnerIterator(Iterable[_ValueT]):
     if isinstance(state, _IteratorState):
       assert len(self._iterators) == 1, f'{len(self._iterators)=}'
       state = {it.name: state for it in self._iterators}
-    iterators = [it.from_state(state[it.name]) for it in self._iterators]
+    # Restoring an iterator also restores the upstream iterator it reads from,
+    # only restore the last one and collect its upstream iterators so that the
+    # iterators here are the ones being iterated.
+    last = self._iterators[-1]
+    iterators = [last.from_state(state[last.name])]
+    while len(iterators) < len(self._iterators):
+      (upstream,) = iterators[0].data_sources
+      iterators.insert(0, upstream)
     return _ChainedRunnerIterator(
         iterators,
         with_result=self._with_result,
